@@ -56,6 +56,12 @@ pub fn compile_case(v: &Value) -> Value {
                 for s in dumps.iter() {
                     let text = match s.as_str() {
                         "core_json" => serde_json::to_string(&c.core).unwrap(),
+                        "go_dbg" => format!("{:?}", c.go),
+                        "anf_dbg" => format!("{:?}", c.anf),
+                        "lift_dbg" => format!("{:?}", c.lambda),
+                        "mono_dbg" => format!("{:?}", c.mono),
+                        "core_dbg" => format!("{:?}", c.core),
+                        "tast_dbg" => format!("{:?}", c.tast),
                         "cst" => parser::debug_tree(&c.green_node),
                         "ast" => c.ast.to_pretty(120),
                         "hir" => {
